@@ -148,7 +148,7 @@ theorem C06_fragment_partial (inputs : List String) (defs : List (String × BExp
   | [(r, e)], hf, h =>
     simp only [inXorFragment, inCleanFragment, inFragment, Bool.and_eq_true, decide_eq_true_eq, List.all_eq_true,
       bne_iff_ne, ne_eq, Bool.not_eq_true', beq_iff_eq, Bool.or_eq_true] at hf
-    obtain ⟨⟨⟨⟨⟨⟨hnd, hfr⟩, hov⟩, htl⟩, hrets⟩, _⟩, hout⟩ := hf
+    obtain ⟨⟨⟨⟨⟨hnd, hfr⟩, hov⟩, htl⟩, hrets⟩, hout⟩ := hf
     intro r' hr'
     have hrr : r' = r := hrets r' hr'
     subst hrr
